@@ -221,6 +221,14 @@ func (tr *fnTrans) instr(b *ssa.BasicBlock, in ssa.Instruction) {
 			tr.setVal(in, SInt, app("sbyte", x.S, k.S))
 			return
 		}
+		if ld, ok := in.X.(*ssa.UnOp); ok {
+			if g, ok := ld.X.(*ssa.Global); ok && g.Name() == "contextFunctions" && !in.CommaOk {
+				// the handler registry: contents extracted from the package initialiser on this run
+				tr.uses["gentables"] = true
+				tr.setVal(in, SFn, app("handlerFn", k.S))
+				return
+			}
+		}
 		if x.T.Elem == nil {
 			tr.errorf("lookup in non-map %s", x.T.Name)
 			return
